@@ -183,6 +183,11 @@ func crossInputs(fmtName string, salt int64, nWell, nNoise int) []corpusInput {
 		ins[nWell-1] = corpusFor(fmtName, salt+1, 1, 120)[0]
 		ins[nWell-2] = corpusFor(fmtName, salt+2, 1, 900)[0]
 		ins[nWell-3] = longLineInput(fmtName, salt+3)
+		// lines of exactly 2^p bytes, p = 12, 15, 16, 17, 18 (buffer sizes that line readers are built around)
+		for i, p := range []int{12, 15, 16, 17, 18} {
+			ins = append(ins, lineOfLength(fmtName, salt+10+int64(i), 1<<p, true))
+			ins = append(ins, lineOfLength(fmtName, salt+20+int64(i), 1<<p-1, true)) // the CR of a CRLF copy is byte 2^p
+		}
 	}
 	if fmtName == "newick" { // line breaks inside quoted names are content, not terminators: keep them out of the CRLF comparison
 		for i := range ins {
@@ -367,9 +372,17 @@ func faultDrive(args []string) error {
 		if maxBytes > 1000 { // thorough: also inputs of several KB (beyond bufio's buffer)
 			ins = append(ins, corpusFor(fd.name, int64(7050+100*fi), nIn, 40)...)
 		}
+		// one input with a line of more than two bufio buffers (faults at a sparse set of offsets), in the thorough tier also one
+		// of more than 64 KiB
+		longs := []corpusInput{lineOfLength(fd.name, int64(7070+100*fi), 9000, false)}
+		if maxBytes > 1000 {
+			longs = append(longs, lineOfLength(fd.name, int64(7071+100*fi), 70000, false))
+		}
+		ins = append(ins, longs...)
 		used := 0
-		for _, in := range ins {
-			if len(in.Data) == 0 || len(in.Data) > maxBytes || used >= nIn {
+		for ii, in := range ins {
+			long := ii >= len(ins)-len(longs)
+			if !long && (len(in.Data) == 0 || len(in.Data) > maxBytes || used >= nIn) {
 				continue
 			}
 			used++
@@ -383,8 +396,14 @@ func faultDrive(args []string) error {
 				Input: ints(in.Data[:min(len(in.Data), 300)])})
 			limit := len(clean) + 64
 			for k := 0; k <= len(in.Data); k++ {
+				if n := len(in.Data); long && !(k < 40 || k > n-40 || k%509 == 0 || (k+1)%4096 < 3 || k%4096 == 2222) {
+					continue
+				}
 				for _, forever := range []bool{false, true} {
 					for _, rs := range []int{1, 4096} {
+						if long && rs == 1 && k%2 == 1 {
+							continue
+						}
 						items := []gItem{}
 						unbounded := false
 						_, p := fd.reader(&faultReader{data: in.Data, at: k, rs: rs, forever: forever}, func(it gItem) bool {
@@ -414,6 +433,7 @@ func faultDrive(args []string) error {
 	r := newRand(7900)
 	var ws []wcase
 	for i := 0; i < nIn; i++ {
+		// (lengths: around the line width, and multiples of line width x 64 - a writer that batches lines batches by such numbers)
 		fa := &fasta.Fasta{Name: faRandBytes(r, r.Intn(10), "\r\n"), Sequence: faRandBytes(r, []int{0, 5, 80, 81, 170}[r.Intn(5)], "\r\n>")}
 		n := r.Intn(40)
 		fq := &fastq.Fastq{Name: fqBytes(r, r.Intn(10)), Sequence: fqBytes(r, n), Quals: fqBytes(r, n)}
@@ -421,6 +441,10 @@ func faultDrive(args []string) error {
 		bd := bedRecord(r, 3+r.Intn(10))
 		nw := nwRandTree(r, 1+r.Intn(6), false)
 		ws = append(ws, wcase{"fasta", fa.Write}, wcase{"fastq", fq.Write}, wcase{"sam", sm.Write}, wcase{"bed", bd.Write}, wcase{"newick", nw.Write})
+	}
+	for _, n := range []int{80 * 64, 80 * 64 * 2, 80 * 256, 4096, 65536} {
+		fa := &fasta.Fasta{Name: faRandBytes(r, 1+r.Intn(10), "\r\n"), Sequence: faRandBytes(r, n, "\r\n>")}
+		ws = append(ws, wcase{"fasta", fa.Write})
 	}
 	for _, w := range ws {
 		sid++
@@ -433,6 +457,10 @@ func faultDrive(args []string) error {
 			continue
 		}
 		for k := 0; k <= full.Len()+1; k++ {
+			// long outputs: the first and last bytes, the bytes around every 16th line break and around multiples of 4096, and every 53rd offset
+			if n := full.Len(); n > 2000 && !(k < 200 || k > n-200 || k%53 == 0 || (k+1)%4096 < 3 || ((k+1)%81 < 3 && (k/81)%16 == 0)) {
+				continue
+			}
 			var werr error
 			p, _ := catch(func() { werr = w.write(&limitWriter{left: k}) })
 			tw.emit(crossEvent{Sid: sid, Fmt: w.name, Op: "wfault", Cfg: "limit", K: k, OutLen: full.Len(), Err: werr != nil, Panic: p, Ids: []int{}, Input: []int{}})
